@@ -230,14 +230,14 @@ def prop_rollout(case, ctx):
 
 
 PROPS = [
-    Prop("evaluator", lambda tier: eval_cases(tier), prop_evaluator, quick=1500, thorough=30000,
+    Prop("evaluator", lambda tier: eval_cases(tier), prop_evaluator, quick=1500, thorough=90000,
          doc="stochastic_fsc_policy_evaluation_exact vs episodic cross-product evaluation (two reference routes)"),
-    Prop("execution", lambda tier: eval_cases(tier), prop_execution, quick=500, thorough=8000,
+    Prop("execution", lambda tier: eval_cases(tier), prop_execution, quick=500, thorough=24000,
          doc="executed vs defined probability of every action/observation history up to length 3"),
-    Prop("rollout", lambda tier: rollout_cases(tier), prop_rollout, quick=1200, thorough=25000,
+    Prop("rollout", lambda tier: rollout_cases(tier), prop_rollout, quick=1200, thorough=75000,
          doc="executing the controller (run_on): valid steps, episode ends on entering an absorbing state, agent-state updates"),
-    Prop("bpi", lambda tier: learner_cases(tier), prop_bpi, quick=60, thorough=1200,
+    Prop("bpi", lambda tier: learner_cases(tier), prop_bpi, quick=60, thorough=3600,
          doc="bounded policy iteration: valid controller, reported value, monotone across iterations (prefix runs)"),
-    Prop("ga", lambda tier: learner_cases(tier), prop_ga, quick=150, thorough=3000,
+    Prop("ga", lambda tier: learner_cases(tier), prop_ga, quick=150, thorough=9000,
          doc="gradient ascent: valid controller, reported value is the exact evaluation"),
 ]
